@@ -186,6 +186,27 @@ def c15_scenarios(tier, mc, rng):
                                 "sort": ["k"] if srt else None},
                      "entries": entries, "indexes": [{"name": "main", "offset": 0, "count": n}], "origin": "seeded", "expect": "ok",
                      "read_stride": 1 if n <= 300 else max(n // 150, 1)})
+    # sort keys that are themselves references (a file-tree archiver sorting on (parent, name)): assigning
+    # positions changes the keys, the store has to be sorted until it is stable
+    for k, (depth, branching) in enumerate([(2, 3), (3, 3), (4, 2), (5, 3)] if tier == "quick" else [(2, 3), (3, 3), (4, 2), (5, 3), (6, 3), (5, 6), (8, 2)]):
+        for srt in (True, False):
+            nodes = []
+
+            def rec(parent, d):
+                for _ in range(branching):
+                    idx = len(nodes)
+                    nodes.append(parent if parent is not None else idx)      # a root refers to itself
+                    if d + 1 < depth:
+                        rec(idx, d + 1)
+            rec(None, 0)
+            ids = list(range(len(nodes)))
+            rng.shuffle(ids)
+            entries = [{"values": {"lnk": {"r": p}, "k": {"u": ids[i] * 3 + 1}}} for i, p in enumerate(nodes)]
+            scns.append({"kind": "entries", "id": "t%d%s" % (k, "s" if srt else "u"), "stores": ["plain"],
+                         "schema": {"common": [{"name": "lnk", "type": "ref"}, {"name": "k", "type": "uint"}], "variants": [],
+                                    "sort": ["lnk", "k"] if srt else None},
+                         "entries": entries, "indexes": [{"name": "main", "offset": 0, "count": len(entries)}], "origin": "tree", "expect": "ok",
+                         "read_stride": 1 if len(entries) <= 400 else max(len(entries) // 200, 1)})
     return scns
 
 
